@@ -135,6 +135,11 @@ def gen_handler_cases(chk, n):
                 ops.append(("ready", rng.choice(ids)))
             else:
                 ops.append(("el", rng.choice(ids)))
+        # a session's ConnectionReady may reach the node server after a competitor authenticated and beat
+        # it: every session that authenticated announces readiness once more at the end
+        for i in sorted(committed):
+            ops.append(("el", i))
+            ops.append(("ready", i))
         for i in ids:
             ops.append(("el", i))
         out.append({"this": this, "ops": ops, "intruders": sorted(intr)})
@@ -232,6 +237,7 @@ def table_term(c):
          "commith": lambda o: f"TCommitH {o[1]}",
          "el": lambda o: f"TIsElected {o[1]}",
          "rm": lambda o: f"TRemove {o[1]}",
+         "fail": lambda o: f"TRemove {o[1]}",       # a session that fails is gone like one that terminates
          "ready": lambda o: f"TReady {o[1]}"}
     return f"table_run {c['this']} [" + "; ".join(m[o[0]](o) for o in c["ops"]) + "]"
 
@@ -426,6 +432,14 @@ def run(chk):
                            "model": show_term(mv), "intruders": c["intruders"],
                            "without_intruders_line": table_line(c2), "impl_without_intruders": show_term(iv2)}, indent=1)
         ok, why = handler_oracle(c, iv)
+        if ok:
+            # 'ready only for the elected session': a ready event directly after the election was asked
+            for k in range(1, len(c["ops"])):
+                if (c["ops"][k][0] == "ready" and c["ops"][k - 1] == ("el", c["ops"][k][1])
+                        and iv[k] == ("OBool", "true") and iv[k - 1] == ("OBool", "false")):
+                    ok, why = False, (f"op #{k}: ConnectionReady({c['ops'][k][1]}) is published as node_session_ready although "
+                                      f"that session is not the elected one (is_elected = false just before)")
+                    break
         omoved = []
         if others[i] is not None:
             c3, keep3, peer_of, p3 = others[i]
